@@ -193,6 +193,10 @@ def random_pilot(rng, kind):
     return rng.choice(sorted(set(kind[1]) | {0}))
 
 
+class RunawayLoop(Exception):
+    """raised by the recording network when run() is still iterating long after the last event"""
+
+
 class Recorder:
     """state shared between the recording network and the recording scheduler"""
 
@@ -212,12 +216,16 @@ def build(inp, rec, mutate=False):
     from acnportal.acnsim.models import EV, Battery
     from acnportal.algorithms import BaseAlgorithm, UncontrolledCharging, SortedSchedulingAlgo, first_come_first_served
 
+    limit = max([0] + [max(s["arrival"], s["departure"]) for s in inp["sessions"]] + list(inp["recomputes"])) + 60
+
     class RecNet(ChargingNetwork):
         def post_charging_update(self):      # the designed hook
             sim = rec.sim
             rec.occ.append((sim._iteration,
                             [evse.ev.session_id if evse.ev is not None else None for evse in self._EVSEs.values()],
                             len(sim.event_history)))
+            if sim._iteration > limit:       # run() must end one period after the last event (C01)
+                raise RunawayLoop("still running at period %d" % sim._iteration)
 
     net = RecNet()
     for st in inp["net"]["stations"]:
